@@ -94,6 +94,9 @@ var textAlphabet = []string{"", "x", "ab", " ", "y ", " z", "\n", ". ", "é", "1
 var wsAlphabet = []string{"", " ", "  ", "\n", " \n\t", "a", " b ", "\tc", "d\n", " \n e \n ", "voilà", "Å ", " 内", "\u00a0x\u00a0", "\u3000"}
 var strPool = []string{"", "a", "b", "ab", "B", "a b", "é", "x1", " pad ", "a,b"}
 
+// string literals: also runs of white space inside the quotes (which no re-spacing of the tag around them may touch)
+var litPool = append(append([]string{}, strPool...), "a  b", " \t x", "  ")
+
 // GenBindings draws the standard binding environment.
 func GenBindings(t *rapid.T, p Profile) Bindings {
 	small := rapid.Int64Range(-3, 9)
@@ -574,7 +577,7 @@ func (g *genv) lit(k gkind) *E {
 	case gInt:
 		return LInt(int64(g.pick("li", 12) - 2))
 	case gStr:
-		e := LStr(rapid.SampledFrom(strPool).Draw(g.t, "ls"))
+		e := LStr(rapid.SampledFrom(litPool).Draw(g.t, "ls"))
 		e.Q = g.pick("q", 2) == 0
 		return e
 	case gBool:
@@ -639,10 +642,6 @@ func (g *genv) exprD(k gkind, depth int, plain bool) *E {
 				}
 				return Prop(Var("ms"), key)
 			})
-		}
-		if !plain && g.p.Filters && g.p.OrdMap {
-			// "an ordered YAML map behaves as a map for lookup and size": the size filter too
-			opts = append(opts, func() *E { return Flt(Var("ms"), "size") })
 		}
 		if !plain && g.p.Filters {
 			opts = append(opts,
